@@ -4,8 +4,11 @@ package rt
 
 import (
 	"fmt"
+	"io"
+	"net"
 	"net/http"
 	"net/http/httptest"
+	"strings"
 	"sync"
 	"testing"
 	"time"
@@ -47,7 +50,7 @@ func genC13(t *rapid.T) c13Case {
 		case "adapter.oneway":
 			s.Behaviour = rapid.SampledFrom([]string{"blockwrite", "blockflush"}).Draw(t, "b")
 		case "nats":
-			s.Behaviour = rapid.SampledFrom([]string{"silent", "late", "otherop", "noresponder"}).Draw(t, "b")
+			s.Behaviour = rapid.SampledFrom([]string{"silent", "late", "otherop", "noresponder", "stalled-link", "stalled-link-oneway"}).Draw(t, "b")
 		case "http":
 			s.Behaviour = rapid.SampledFrom([]string{"silent", "late"}).Draw(t, "b")
 		}
@@ -164,10 +167,37 @@ func execC13Sub(s c13Sub) *ev.Failure {
 			}
 		}
 		var f *ev.Failure
+		var f2 *ev.Failure
+		second := make(chan struct{})
+		if gate != nil {
+			// a second call on the same transport while the first one's write is stalled must
+			// honour its own timeout too
+			go func() {
+				defer close(second)
+				time.Sleep(time.Duration(s.LateMs%5) * time.Millisecond)
+				ctxB := frugal.NewFContext("").SetTimeout(timeout)
+				reqB := refFrame(frameContent([]KV{kv("_opid", opidOf(ctxB))}, []byte("ping-b")))
+				if s.LateMs%2 == 0 {
+					f2 = call(func() error { _, err := tr.Request(ctxB, reqB); return err }, true)
+				} else {
+					f2 = call(func() error { return tr.Oneway(ctxB, reqB) }, true)
+				}
+				if f2 != nil {
+					f2.Sig = "second-call:" + f2.Sig
+					f2.Msg = "second concurrent call on the transport whose write is stalled: " + f2.Msg
+				}
+			}()
+		} else {
+			close(second)
+		}
 		if s.Transport == "adapter.oneway" {
 			f = call(func() error { return tr.Oneway(ctx, req) }, true)
 		} else {
 			f = call(func() error { _, err := tr.Request(ctx, req); return err }, true)
+		}
+		<-second
+		if f == nil {
+			f = f2
 		}
 		if gate != nil {
 			st.mu.Lock()
@@ -196,7 +226,25 @@ func execC13Sub(s c13Sub) *ev.Failure {
 		return nil
 
 	case "nats":
-		conn, err := natsConnect()
+		var conn *nats.Conn
+		var err error
+		var proxy *pauseProxy
+		if strings.HasPrefix(s.Behaviour, "stalled-link") {
+			// the client talks to the broker through a TCP proxy that can stop forwarding:
+			// the link looks CONNECTED but nothing moves
+			u, uerr := natsURL()
+			if uerr != nil {
+				return ev.Failf("harness:nats", "%v", uerr)
+			}
+			proxy, err = newPauseProxy(strings.TrimPrefix(u, "nats://"))
+			if err != nil {
+				return ev.Failf("harness:proxy", "%v", err)
+			}
+			defer proxy.close()
+			conn, err = nats.Connect("nats://"+proxy.addr(), nats.NoReconnect(), nats.PingInterval(time.Hour))
+		} else {
+			conn, err = natsConnect()
+		}
 		if err != nil {
 			return ev.Failf("harness:nats", "%v", err)
 		}
@@ -229,6 +277,25 @@ func execC13Sub(s c13Sub) *ev.Failure {
 			return ev.Failf("harness:open", "%v", err)
 		}
 		defer tr.Close()
+		if proxy != nil {
+			conn.Flush()
+			proxy.pause()
+			var f *ev.Failure
+			if s.Behaviour == "stalled-link-oneway" {
+				// Oneway only has to return in time; publishing into the client's buffer is success
+				f = call(func() error { return tr.Oneway(ctx, req) }, false)
+			} else {
+				f = call(func() error { _, err := tr.Request(ctx, req); return err }, true)
+			}
+			proxy.resume()
+			if f != nil {
+				return f
+			}
+			if n := frugal.VerifRegistryLen(tr); n != 0 {
+				return ev.Failf("registration-left", "%s: %d registrations left after the call returned", what, n)
+			}
+			return nil
+		}
 		if s.Behaviour == "noresponder" {
 			// the broker answers 503: the legal outcomes are SERVICE_NOT_AVAILABLE or TIMED_OUT, in time
 			var rerr error
@@ -288,3 +355,77 @@ func execC13Sub(s c13Sub) *ev.Failure {
 var c13Prop = ev.Prop("c13.timeout", genC13, execC13, classifyC13, nil)
 
 func TestC13Timeout(t *testing.T) { rapid.Check(t, c13Prop) }
+
+// pauseProxy is a TCP proxy whose forwarding can be suspended.
+type pauseProxy struct {
+	l      net.Listener
+	target string
+	mu     sync.Mutex
+	cond   *sync.Cond
+	paused bool
+	conns  []net.Conn
+}
+
+func newPauseProxy(target string) (*pauseProxy, error) {
+	l, err := net.Listen("tcp", "127.0.0.1:0")
+	if err != nil {
+		return nil, err
+	}
+	p := &pauseProxy{l: l, target: target}
+	p.cond = sync.NewCond(&p.mu)
+	go func() {
+		for {
+			c, err := l.Accept()
+			if err != nil {
+				return
+			}
+			up, err := net.Dial("tcp", target)
+			if err != nil {
+				c.Close()
+				continue
+			}
+			p.mu.Lock()
+			p.conns = append(p.conns, c, up)
+			p.mu.Unlock()
+			go p.pipe(c, up)
+			go p.pipe(up, c)
+		}
+	}()
+	return p, nil
+}
+
+func (p *pauseProxy) pipe(dst, src net.Conn) {
+	buf := make([]byte, 32*1024)
+	for {
+		n, err := src.Read(buf)
+		if n > 0 {
+			p.mu.Lock()
+			for p.paused {
+				p.cond.Wait()
+			}
+			p.mu.Unlock()
+			if _, werr := dst.Write(buf[:n]); werr != nil {
+				return
+			}
+		}
+		if err != nil {
+			if err != io.EOF {
+				dst.Close()
+			}
+			return
+		}
+	}
+}
+
+func (p *pauseProxy) addr() string { return p.l.Addr().String() }
+func (p *pauseProxy) pause()       { p.mu.Lock(); p.paused = true; p.mu.Unlock() }
+func (p *pauseProxy) resume()      { p.mu.Lock(); p.paused = false; p.cond.Broadcast(); p.mu.Unlock() }
+func (p *pauseProxy) close() {
+	p.resume()
+	p.l.Close()
+	p.mu.Lock()
+	for _, c := range p.conns {
+		c.Close()
+	}
+	p.mu.Unlock()
+}
